@@ -58,6 +58,42 @@ theorem showList_length (σ : Store) : ∀ (f : Nat) (vs : List Val) (parts : Li
           subst h
           simp [ih vs ss hvs]
 
+theorem showProps_length (σ : Store) : ∀ (f : Nat) (ps : List (Name × Val)) (ks : List Name) (parts : List (List Char)),
+    showProps σ f ps ks = some parts → parts.length = ks.length := by
+  intro f
+  induction f with
+  | zero => intro ps ks parts h; simp [showProps] at h
+  | succ f ih =>
+    intro ps ks parts h
+    cases ks with
+    | nil => simp [showProps] at h; simp [← h]
+    | cons k ks =>
+      rw [showProps] at h
+      cases hv : showNested σ f ((ps.lookup k).getD .nil) with
+      | none => simp [hv] at h
+      | some s =>
+        cases hvs : showProps σ f ps ks with
+        | none => simp [hv, hvs] at h
+        | some ss =>
+          simp [hv, hvs] at h
+          subst h
+          simp [ih ps ks ss hvs]
+
+/-- an object shows every property, as `name:value`, in the sorted order of the names -/
+theorem object_shows_all_sorted (σ : Store) (f : Nat) (r : Nat) (parts : List (List Char))
+    (h : showProps σ f (σ.objs[r]?.getD []) (sortKeys ((σ.objs[r]?.getD []).map (·.1))) = some parts) :
+    showNested σ (f + 1) (.obj r) = some ("map[".toList ++ joinSp parts ++ [']']) ∧
+    parts.length = ((σ.objs[r]?.getD []).map (·.1)).length := by
+  refine ⟨by simp [showNested, h], ?_⟩
+  rw [showProps_length σ f _ _ parts h]
+  exact (List.mergeSort_perm _ _).length_eq
+
+/-- the special doubles and the two zeros print as Go prints them -/
+theorem special_numbers_text :
+    F64.nan.fmtV = "NaN".toList ∧ (F64.inf false).fmtV = "+Inf".toList ∧ (F64.inf true).fmtV = "-Inf".toList ∧
+    (F64.zero false).fmtV = "0".toList ∧ (F64.zero true).fmtV = "-0".toList := by
+  refine ⟨rfl, rfl, rfl, ?_, ?_⟩ <;> simp [F64.fmtV, F64.zero]
+
 /-- a value that is not a cyclic structure can always be printed once enough fuel is given:
     constants, numbers, strings and callables need one unit -/
 theorem atoms_printable (σ : Store) (f : Nat) (v : Val) (h : ∀ r, v ≠ .arr r ∧ v ≠ .obj r) :
